@@ -134,12 +134,14 @@ func worker(readyc <-chan *ScheduledJob, donec chan<- jobResult) {
 		if exitCleanly {
 			return
 		}
+		verifPoint(6, 0) // VerifWorkerDying
 		donec <- jobResult{Job: currentJob, Err: errors.New("job exited unexpectedly")}
 		go worker(readyc, donec)
 	}()
 
 	for j := range readyc {
 		res := jobResult{Job: j}
+		verifPoint(4, 0) // VerifWorkerGot
 		currentJob = j
 
 		if err := j.ctx.Err(); err != nil {
@@ -152,6 +154,7 @@ func worker(readyc <-chan *ScheduledJob, donec chan<- jobResult) {
 			res.Err = j.run(j.ctx)
 		}
 		currentJob = nil
+		verifPoint(5, 0) // VerifWorkerPost
 		donec <- res
 	}
 	exitCleanly = true
@@ -322,6 +325,7 @@ func (s *Scheduler) Enqueue(ctx context.Context, j Job) *ScheduledJob {
 		run:  j.Run,
 		deps: j.Dependencies,
 	}
+	verifPoint(7, 0) // VerifEnqueue
 	s.enqueuec <- pj // panics if closed
 	return pj
 }
@@ -358,6 +362,7 @@ func (s *Scheduler) run(emitter Emitter, freq time.Duration) {
 		for range s.enqueuec {
 		}
 	}()
+	defer verifPoint(9, 0) // VerifLoopExit
 
 	var tickerC <-chan time.Time
 	if emitter != nil {
@@ -405,6 +410,7 @@ func (s *Scheduler) run(emitter Emitter, freq time.Duration) {
 			readyc = nil
 		}
 
+		verifPoint(0, 0) // VerifLoopTop
 		select {
 		case readyc <- next:
 			// Remove from the ready queue only if we scheduled in
@@ -412,6 +418,7 @@ func (s *Scheduler) run(emitter Emitter, freq time.Duration) {
 			ready.Remove(nextEl)
 
 			ongoing++
+			verifPoint(1, ongoing) // VerifDispatched
 
 		case job, ok := <-enqueuec:
 			// Wait was called and the enqueue channel was closed.
@@ -446,6 +453,7 @@ func (s *Scheduler) run(emitter Emitter, freq time.Duration) {
 			} else {
 				waiting++
 			}
+			verifPoint(3, 0) // VerifEnqueueSeen
 
 		case res := <-s.donec:
 			job := res.Job
@@ -453,6 +461,7 @@ func (s *Scheduler) run(emitter Emitter, freq time.Duration) {
 
 			pending--
 			ongoing--
+			verifPoint(2, ongoing) // VerifResult
 
 			if err := res.Err; err != nil {
 				job.err = err
@@ -517,6 +526,7 @@ func (s *Scheduler) run(emitter Emitter, freq time.Duration) {
 // No new jobs may be enqueued once Wait is called.
 func (s *Scheduler) Wait(ctx context.Context) error {
 	close(s.enqueuec) // disallow new Enqueues
+	verifPoint(8, 0)
 	select {
 	case <-ctx.Done():
 		return ctx.Err()
